@@ -519,6 +519,33 @@ Example ex_ok_shape : A prog_ok =
       [(50, KJet); (52, KAssert); (53, KDebug (TUInt 3))]).
 Proof. vm_compute. reflexivity. Qed.
 
+(* a second program whose expected value is transcribed from the Rust dump (svh core, `ast`):
+   fn main() { let y: [u8; 2] = 0x01ff; let o: Either<u8, u16> = Left(2);
+               let z: u16 = match o { Right(b: u16) => b, Left(a: u8) => <(u8,u8)>::into((a, a)), };
+               let l: List<u8, 4> = list![1,2]; let u: u8 = (unwrap_left::<u16>(o)); }
+   ids: y=7 o=11 z=12 l=13 u=14 a=1 b=2 *)
+Example ex_ok_shape2 :
+  A [ main_of
+      [ (Some (PId 7, PTree.AArray u8 2), PLit (LHex [48; 49; 102; 102]));
+        (Some (PId 11, AEither u8 u16), PLeft (PLit (LDec [50])));
+        (Some (PId 12, u16),
+         PMatch (PVar 11) (MLeft 1 u8) (PCall 51 (PCast (PTree.ATuple [u8; u8])) [PTuple [PVar 1; PVar 1]])
+                          (MRight 2 u16) (PVar 2));
+        (Some (PId 13, PTree.AList u8 2), PList [PLit (LDec [49]); PLit (LDec [50])]);
+        (Some (PId 14, u8), PParen (PCall 52 (PUnwrapLeft u16) [PVar 11])) ] ] =
+  Ok (EBlock TUnit
+        [ (Some (PId 7), EConst (TArray (TUInt 3) 2) (Value.AArray [Value.AUInt 3 1; Value.AUInt 3 255] (TUInt 3)));
+          (Some (PId 11), ELeft (TEither (TUInt 3) (TUInt 4)) (EConst (TUInt 3) (Value.AUInt 3 2)));
+          (Some (PId 12),
+           EMatch (TUInt 4) (EVar (TEither (TUInt 3) (TUInt 4)) 11)
+             (Some 1) (ECall (TUInt 4) (BCast (TTuple [TUInt 3; TUInt 3]))
+                         [ETuple (TTuple [TUInt 3; TUInt 3]) [EVar (TUInt 3) 1; EVar (TUInt 3) 1]])
+             (Some 2) (EVar (TUInt 4) 2));
+          (Some (PId 13), EList (TList (TUInt 3) 2) [EConst (TUInt 3) (Value.AUInt 3 1); EConst (TUInt 3) (Value.AUInt 3 2)]);
+          (Some (PId 14), EParen (ECall (TUInt 3) BUnwrapLeft [EVar (TEither (TUInt 3) (TUInt 4)) 11])) ] None,
+      [], [], [(52, KUnwrapLeft (TEither (TUInt 3) (TUInt 4)))]).
+Proof. vm_compute. reflexivity. Qed.
+
 (* use before definition: main calls add, which is defined after main *)
 Example ex_use_before_def : A [ main_of [(None, PCall 51 (PCustom 3) [])]; IFunction 3 [] None (PBlock [] None) ] = Err.
 Proof. vm_compute. reflexivity. Qed.
